@@ -95,6 +95,7 @@ func runC09(w *World, r *Report) {
 
 	c09PendingCheck(w, r, ef)
 	c09Lock(w, r)
+	c09RecordsUnderLock(w, r)
 	c09Immutable(w, r)
 	c09ReportLock(w, r)
 	c09ReplaceOnlyAfterUninstall(w, r)
@@ -254,8 +255,12 @@ func acquireKind(c ssa.CallInstruction, depth int) lockKind {
 	k := lockNone
 	for _, cc := range callInstrs(f) {
 		if _, isDefer := cc.(*ssa.Defer); isDefer {
-			continue
+			// a helper with deferred work releases what it took when it returns (defer unlock(…)): it
+			// does not hand the lock to its caller
+			return lockNone
 		}
+	}
+	for _, cc := range callInstrs(f) {
 		if ak := acquireKind(cc, depth+1); ak != lockNone {
 			if FullGraph(f).DominatesInstr(cc, lastReturnPos(f)) {
 				k = ak
@@ -540,6 +545,80 @@ func c09Lock(w *World, r *Report) {
 					"the helper's accesses happen inside the method's write-locked section", "a helper that reads shared state is called outside the write-locked section of a writing method: check and update are not atomic")
 			}
 		}
+	}
+}
+
+// c09RecordsUnderLock: the record lists handed out by the cache share their backing arrays with the
+// store. Every use of one (a method of `records`, a range over it) in a method of the memory driver
+// happens while that method itself holds the lock — not after a helper that took the lock, collected
+// the lists and let go of it again.
+func c09RecordsUnderLock(w *World, r *Report) {
+	r.Rule("C09/RECORDS-LOCKED", "in the memory driver every use of a record list (a method of the records type, or a range over one) lies in a method that holds the lock itself at that point", 4)
+	isRecords := func(t types.Type) bool {
+		if p, ok := t.(*types.Pointer); ok {
+			t = p.Elem()
+		}
+		n, ok := t.(*types.Named)
+		return ok && n.Obj().Pkg() != nil && n.Obj().Pkg().Path() == driverPkg && refTypeName(n.Obj()) == "records"
+	}
+	n := 0
+	for _, m := range w.FuncsIn("pkg/storage/driver") {
+		if m.Parent() != nil || m.Signature.Recv() == nil || !isNamedPtr(m.Signature.Recv().Type(), driverPkg, "Memory") {
+			continue
+		}
+		g := FullGraph(m)
+		var acquires []ssa.CallInstruction
+		for _, c := range callInstrs(m) {
+			if _, isDefer := c.(*ssa.Defer); isDefer {
+				continue
+			}
+			if acquireKind(c, 0) != lockNone {
+				acquires = append(acquires, c)
+			}
+		}
+		seen := map[string]int{}
+		for _, b := range m.Blocks {
+			for _, in := range b.Instrs {
+				use := ""
+				switch x := in.(type) {
+				case ssa.CallInstruction:
+					if sig := x.Common().Signature(); sig != nil && sig.Recv() != nil && isRecords(sig.Recv().Type()) {
+						use = "records." + x.Common().StaticCallee().Name()
+					}
+				case *ssa.Range:
+					if isRecords(x.X.Type()) {
+						use = "range over records"
+					}
+				case *ssa.Index:
+					if isRecords(x.X.Type()) {
+						use = "index into records"
+					}
+				case *ssa.IndexAddr:
+					if isRecords(x.X.Type()) {
+						use = "index into records"
+					}
+				}
+				if use == "" {
+					continue
+				}
+				n++
+				held := false
+				for _, a := range acquires {
+					if g.DominatesInstr(a, posOf(in)) {
+						held = true
+					}
+				}
+				key := FuncName(m) + "/" + use
+				seen[key]++
+				if seen[key] > 1 {
+					key = fmt.Sprintf("%s#%d", key, seen[key])
+				}
+				r.Check(held, "C09/RECORDS-LOCKED", key, w.InstrPos(in), "the method holds the lock it took itself", "a record list is used in a method that does not hold the lock at that point (the list was collected under the lock by a helper, the lock is gone): a concurrent create, update or delete rewrites the shared backing array under the reader")
+			}
+		}
+	}
+	if n == 0 {
+		r.Unk("C09/RECORDS-LOCKED", "no-site", "-", "no use of a record list found in the memory driver")
 	}
 }
 
